@@ -6,6 +6,11 @@ VERIF = os.path.dirname(os.path.dirname(os.path.abspath(__file__)))
 
 # id -> (level category, technique, level text, level note, design ref)
 CHECKS = {
+    "C06": ("exploration",
+            "enumeration of message lengths x forms (byte-differential vs libsodium and an RFC 8032 big-integer model) + constructed negative families (all bit flips, S+kL, small-order / non-canonical tables, model-built mixed-order keys); accept/reject differential vs libsodium",
+            "Signatures for every message length in both modes and every API form must equal libsodium's bytes; the accept/reject decision of every dryoc verification form must equal libsodium's on every single-bit mutation, every S+kL that fits 256 bits, all small-order and non-canonical encodings as R and as public key, mode cross-overs, and mixed-order keys where the correct answer is sometimes accept.",
+            "libsodium 1.0.18 defines strictness; non-canonical large-order R/pk with a valid equation cannot be constructed without a discrete log and are out of reach.",
+            "DESIGN.md §3 C06"),
     "C01": ("exploration",
             "enumeration of every message length x every sealing form x container; byte-differential vs libsodium; round-trip and cross-open through every opener",
             "Every message length 0..=L (plus multi-KiB) is sealed through every classic and object-API form with several containers (heap/locked containers in a nightly sub-run) and compared byte-for-byte with libsodium; each result is opened by libsodium and by all 20 dryoc openers; dryoc-sealed boxes (internal ephemeral key) are structurally checked with the reference and opened by libsodium and vice versa.",
